@@ -1,7 +1,7 @@
 """Case provider for C19 (not a property of its own): the column-slice arithmetic of a ragged VIEW executed on bare shape arrays
 (starts, lengths) of the configured index dtype -- no data buffer, so rows of up to 2**31 - 1 cells cost nothing.  The same case
 runs under int64 (in process) and int32 (c19_worker), through the generated wrapping-32-bit kernels `Gen.CurW` (L) and the
-generated unbounded kernels `Gen.Cur` (S) in the Lean driver, and through CPython's own slice arithmetic (oracle).
+committed reference kernels `Gen.Ref` over unbounded integers (S) in the Lean driver, and through CPython's own slice arithmetic (oracle).
 
 Domain = the domain of the theorems `C19_col_slice_w32` / `C19_col_slice_int_w32`: rows inside a buffer of at most 2**31 - 1
 cells, slice fields within the clip of `IndexableArray._bounded_slice` (+-(2**31 - 1) // 2), any Python integer as a column."""
